@@ -32,9 +32,10 @@ JS_OK = ['var a = 1 ;\n', 'function f ( x ) { return x + 1 ; }\nf( 2 ) ;\n', 'le
 JS_BAD = ['var = ;\n', 'var a = 10000000000 ;\nvar = 3 ;', 'function ( {\n']
 CSS_OK = ['a { color : red ; }\n', 'body { margin : 0px ; padding : 0 0 0 0 }\n', '', '.x , .y { top : 0.50em }']
 HTML_OK = ['<html><body><p> hi  there </p></body></html>\n', '<!DOCTYPE html><p title="a  b"> x </p><script> var a = 1 ; </script>', '']
-HTML_BAD = ['<p>x</p><script> var = ; </script>', '<p title="a  b"> 1e+10 </p><script>x = 10000000000 ; var = ;</script>']
+HTML_BAD = ['<p>x</p><script> var = ; </script>', '<p title="a  b"> 1e+10 </p><script>x = 10000000000 ; var = ;</script>',
+            '<DIV CLASS="A  B"> <P> Hi </P> </DIV><SCRIPT> var = ; </SCRIPT>']   # the last one: names are lower-cased in the buffer before the script fails
 JSON_OK = ['{ "a" : 1e+10 , "b" : [ 1 , 2 ] }\n', '[ 1.50 , true , null ]', '{ }']
-JSON_BAD = ['{ "a" : 1e+10 , "b" : }', '[ 100000 , 0.50 , ']
+JSON_BAD = ['{ "a" : 1e+10 , "b" : }', '[ 100000 , 0.50 , ', '{ "a" : 1000000.0 , "b" : 0.50 , "c" : }']   # numbers are rewritten in the buffer before the error
 SVG_OK = ['<svg xmlns="http://www.w3.org/2000/svg"><path d="M 0 0 L 10 10"/> </svg>\n']
 XML_OK = ['<?xml version="1.0"?>\n<a> <b> x </b> </a>\n']
 TXT = ['hello  world\n', 'x\n', '', 'a = 1 ;\n']
@@ -176,13 +177,13 @@ def extra_scenarios(ctx):
     add({'s/a.css': 'a { top : 0 }', 's/b.css': 'b { top : 0 }', 's/t/c.css': 'c { top : 0 }'}, inputs=['s'], output='style.css', b=True, r=True)
     add({'a.js': 'var a = 1', 'e.js': '', 'x.js': 'var x = 2'}, inputs=['a.js', 'e.js', 'x.js'], output='o.js', b=True)
     # inputs that fail late, after the minifier has rewritten earlier tokens: destination must hold the ORIGINAL bytes
-    late = {'h.html': HTML_BAD[1], 'j.json': JSON_BAD[0], 'k.json': JSON_BAD[1], 'b.js': JS_BAD[1], 'g.js': 'var ok = 1 ;\n',
+    late = {'h.html': HTML_BAD[1], 'u.html': HTML_BAD[2], 'j.json': JSON_BAD[0], 'k.json': JSON_BAD[1], 'm.json': JSON_BAD[2], 'b.js': JS_BAD[1], 'g.js': 'var ok = 1 ;\n',
             'c.css': 'a { color : red }'}
-    add(late, inputs=['h.html', 'j.json', 'k.json', 'b.js', 'g.js', 'c.css'], output='out/')
+    add(late, inputs=['h.html', 'u.html', 'j.json', 'k.json', 'm.json', 'b.js', 'g.js', 'c.css'], output='out/')
     add(late, inputs=['.'], output='.', r=True)                       # all of them in place
     add(late, inputs=['.'], output='out/', r=True, s=True)
     add(late, inputs=['.'], output='out/', r=True, v=True)
-    for p in ('h.html', 'j.json', 'b.js'):
+    for p in ('h.html', 'u.html', 'j.json', 'm.json', 'b.js'):
         add({p: late[p]}, inputs=[p], output=p)                       # failing file onto itself
         add({p: late[p]}, inputs=[p], output='o.' + p.split('.')[1])
         add({p: late[p]}, inputs=[p])                                 # to stdout
